@@ -24,13 +24,20 @@ class Suspend:
         yield 'susp'
 
 
+# marker line 0 at the start of the body, marker line 1 in the clean-up code (finally:), which
+# runs on exhaustion as well as when the object is closed early, thrown into or dropped
 SRC = {
     0: "def f{i}(*a, **k):\n    T({i}, 0)\n    T({i}, 1)\n    return {i}\n",
-    1: "def f{i}(*a, **k):\n    T({i}, 0)\n    yield 1\n    yield 2\n    T({i}, 1)\n",
-    2: "async def f{i}(*a, **k):\n    T({i}, 0)\n    await SUSP()\n    T({i}, 1)\n    return {i}\n",
-    3: "async def f{i}(*a, **k):\n    T({i}, 0)\n    yield 1\n    await SUSP()\n    yield 2\n    T({i}, 1)\n",
+    1: "def f{i}(*a, **k):\n    T({i}, 0)\n    try:\n        yield 1\n        yield 2\n    finally:\n        T({i}, 1)\n",
+    2: "async def f{i}(*a, **k):\n    T({i}, 0)\n    try:\n        await SUSP()\n    finally:\n        T({i}, 1)\n    return {i}\n",
+    3: "async def f{i}(*a, **k):\n    T({i}, 0)\n    try:\n        yield 1\n        await SUSP()\n        yield 2\n    finally:\n        T({i}, 1)\n",
 }
-MARK_LINES = {0: (2, 3), 1: (2, 5), 2: (2, 4), 3: (2, 6)}
+MARK_LINES = {0: (2, 3), 1: (2, 7), 2: (2, 6), 3: (2, 8)}
+MODES = ['exhaust', 'close', 'throw', 'drop']
+
+
+class Boom(BaseException):
+    pass
 
 
 def drive(aw):
@@ -41,18 +48,51 @@ def drive(aw):
         return e.value
 
 
-def consume(r):
+def consume(r, mode='exhaust'):
+    """Use up what an access returned.  mode: run it to the end / advance to the first
+    suspension and then close() it / throw into it / let go of it (the caller holds no other
+    reference, so it is finalised as soon as this returns)."""
     if inspect.isgenerator(r):
-        for _ in r:
-            pass
-    elif inspect.iscoroutine(r):
-        drive(r)
-    elif inspect.isasyncgen(r):
-        while True:
+        if mode == 'exhaust':
+            for _ in r:
+                pass
+            return
+        next(r)
+        if mode == 'close':
+            r.close()
+        elif mode == 'throw':
             try:
-                drive(r.__anext__())
-            except StopAsyncIteration:
-                break
+                r.throw(Boom())
+            except Boom:
+                pass
+    elif inspect.iscoroutine(r):
+        if mode == 'exhaust':
+            drive(r)
+            return
+        r.send(None)
+        if mode == 'close':
+            r.close()
+        elif mode == 'throw':
+            try:
+                r.throw(Boom())
+            except Boom:
+                pass
+    elif inspect.isasyncgen(r):
+        if mode == 'exhaust':
+            while True:
+                try:
+                    drive(r.__anext__())
+                except StopAsyncIteration:
+                    break
+            return
+        drive(r.__anext__())
+        if mode == 'close':
+            drive(r.aclose())
+        elif mode == 'throw':
+            try:
+                drive(r.athrow(Boom()))
+            except Boom:
+                pass
 
 
 class Holder:
@@ -168,26 +208,48 @@ class Ctx:
         return out
 
 
+def leaf_kinds(t):
+    if t is None:
+        return set()
+    if t[0] in ('fn', 'wr'):
+        return {t[1]}
+    out = set()
+    for x in t[1:]:
+        if isinstance(x, list):
+            out |= leaf_kinds(x)
+    return out
+
+
 def plan_for(t):
     tag = t[0]
     if tag in ('fn', 'wr', 'bd', 'pt'):
-        return [('call', 0), ('call', 1), ('inscall', 0)]
-    if tag in ('cm', 'sm'):
-        return [('clscall', 0), ('inscall', 0), ('clscall', 1)]
-    if tag == 'pm':
-        return [('inscall', 0), ('inscall', 1)]
-    if tag == 'pr':
-        p = []
+        base = [('call', 0), ('call', 1), ('inscall', 0)]
+    elif tag in ('cm', 'sm'):
+        base = [('clscall', 0), ('inscall', 0), ('clscall', 1)]
+    elif tag == 'pm':
+        base = [('inscall', 0), ('inscall', 1)]
+    elif tag == 'pr':
+        base = []
         if t[1] is not None:
-            p += [('get', 0), ('get', 1)]
+            base += [('get', 0), ('get', 1)]
         if t[2] is not None:
-            p += [('set', 0), ('set', 1)]
+            base += [('set', 0), ('set', 1)]
         if t[3] is not None:
-            p += [('del', 0)]
-        return p
+            base += [('del', 0)]
+    elif tag == 'cp':
+        base = [('cget', 0), ('cget2', 0), ('cget', 1)]
+    else:
+        raise ValueError(t)
+    modes = MODES if (leaf_kinds(t) - {0}) else ['exhaust']
     if tag == 'cp':
-        return [('cget', 0), ('cget2', 0), ('cget', 1)]
-    raise ValueError(t)
+        modes = [m for m in modes if m != 'drop']    # the value stays cached on the instance
+    plan = []
+    for m in modes:
+        for how, d in base:
+            if how in ('set', 'del', 'cget2') and m != 'exhaust':
+                continue                              # nothing to consume there
+            plan.append((how, d, m))
+    return plan
 
 
 ACCESS_CODE = {'call': ACALL, 'inscall': ACALL, 'clscall': ACALL, 'get': AGET, 'set': ASET, 'del': ADEL,
@@ -200,32 +262,33 @@ def perform(ctx, obj, plan):
     out = []
     state = {}
 
-    def act(how):
+    def act(how, mode):
         if how == 'call':
-            consume(obj('a'))
+            consume(obj('a'), mode)
         elif how == 'inscall':
-            consume(C().x('a'))
+            consume(C().x('a'), mode)
         elif how == 'clscall':
-            consume(C.x('a'))
+            consume(C.x('a'), mode)
         elif how == 'get':
-            consume(C().x)
+            consume(C().x, mode)
         elif how == 'set':
             C().x = 5
         elif how == 'del':
             del C().x
         elif how == 'cget':
             state['inst'] = C()
-            consume(state['inst'].x)
+            consume(state['inst'].x, mode)
         elif how == 'cget2':
             state['inst'].x          # cached: nothing runs; the cached value is not used again
-    for how, d in plan:
+    for how, d, mode in plan:
         ctx.runs = []
         if d:
             with ctx.prof:
-                act(how)
+                act(how, mode)
         else:
-            act(how)
+            act(how, mode)
         out.append(ctx.runs)
+    state.clear()
     return out
 
 
@@ -244,7 +307,8 @@ def run_case(caseno, case):
     t = case['term']
     res = dict(err=None)
     plan = plan_for(t)
-    res['plan'] = [[ACCESS_CODE[h], d] for h, d in plan]
+    res['plan'] = [[ACCESS_CODE[h], d] for h, d, _m in plan]
+    res['modes'] = [m for _h, _d, m in plan]
     try:
         with warnings.catch_warnings():
             warnings.simplefilter('ignore')
